@@ -105,6 +105,10 @@ def run(chk):
     small += [("shipped:" + n + ":moved", "I " + n, None) for n in ("en-us-comp6.ctb", "de-g0.utb", "en-us-g1.ctb")]
     outs += common.run_stream(exe, ["M 1"], [c for _, c, _ in small], env=env, timeout=1800)
     cmds = cmds + small
+    # ... and a third time created and grown without slack (hook): every allocation takes the library's own growth path
+    tight = [(k.replace(":moved", ":tight"), c, t) for k, c, t in small]
+    outs += common.run_stream(exe, ["M -1"], [c for _, c, _ in tight], env=env, timeout=1800)
+    cmds = cmds + tight
     for (key, cmd, text), o in zip(cmds, outs):
         if isinstance(o, tuple):
             chk.count(key)
